@@ -19,7 +19,8 @@ func init() {
 		Decided: "D1 in every method of the catalog the effects on the key map (insert, delete, reset) and on the association list (append, remove, reset) occur pairwise in the same control region, the association appended is the very association inserted under the key, built from the method's own key and value, the in-place update goes to the association found under the same key, and the key deleted is the parameter whose association is removed; the sorting/reversing/shuffling methods and all readers do not touch the key map; " +
 			"D2 the list position handed to RemoveValue is not obtained from the list's collator-based search (structurally equal associations under distinct keys exist for pointer keys) but from the key's identity; " +
 			"D3 all loops of the catalog type and class are in terminating forms." +
-			" Round 7: a Go map that is ranged is not read back by key (NaN keys); no dynamic == on keys or values; RemoveAll clears on every path not selected by an emptiness test.",
+			" Round 7: a Go map that is ranged is not read back by key (NaN keys); no dynamic == on keys or values; RemoveAll clears on every path not selected by an emptiness test." +
+			" Rounds 8-9: readers assign no field; no dynamic == in the association's file either.",
 		NotDecided: "that GetValue/GetValues/GetKeys/iteration agree after arbitrary histories (follows from D1 only together with the list's element placement, C01 not-decided part).",
 		Run:        runC03,
 	})
